@@ -5,9 +5,13 @@
    (Put.trash_single / try_candidates build the text from `path`), and is logged at WARNING level, which
    every verbosity prints.  That each argument is processed exactly once, in order, whatever the others did:
    Put.trash_each is a fold; the per-argument invariant Inv is re-established after every argument
-   (PutProofs.wp_trash_each).  Independence of OUTCOMES on the file system (an argument's result equals
-   its result when run alone) involves the file system and is decided by the check's oracle. *)
-From TV Require Import Prelude.Str Logic.OrigLoc Prog.Prog Cmd.Put Proofs.ProgProofs Proofs.PutSafe Proofs.PutProofs.
+   (PutProofs.wp_trash_each).  put_arguments_are_independent: the runs of trash-put on a list of arguments are exactly
+   the concatenations of runs of the single-argument procedure Put.trash_single, one per argument, in order, each with
+   the same options - nothing but the list of failed paths is carried from one argument to the next (both directions:
+   Independence.trash_each_runs), and the exit status is 0 exactly when every one of them reported success.
+   Independence of OUTCOMES on the file system (an argument's result equals its result when run alone - the answers of
+   the file system may depend on what earlier arguments did) is decided by the check's oracle. *)
+From TV Require Import Prelude.Str Logic.OrigLoc Prog.Prog Cmd.Put Proofs.ProgProofs Proofs.PutSafe Proofs.PutProofs Proofs.Independence.
 Open Scope N_scope.
 
 Theorem exit_status_iff_no_failure_reported : forall o,
@@ -18,6 +22,22 @@ Theorem exit_status_iff_no_failure_reported : forall o,
               end) (put_main o).
 Proof. exact put_discipline_lemma. Qed.
 Print Assumptions exit_status_iff_no_failure_reported.
+
+Theorem put_arguments_are_independent : forall o,
+  all_runs (fun t out => exists failed_or_exn : outcome (list str),
+      each_alone o (po_paths o) t failed_or_exn /\
+      match out, failed_or_exn with
+      | Done code, Done failed => (code = 0 <-> failed = []) /\ (code = 0 \/ code = EX_IOERR)
+      | Uncaught e, Uncaught e' => e = e'
+      | _, _ => False
+      end) (put_main o).
+Proof. exact put_arguments_are_independent_lemma. Qed.
+Print Assumptions put_arguments_are_independent.
+
+(* and conversely: any sequence of single-argument runs is a run of the list *)
+Theorem single_runs_compose : forall o ps t out, each_alone o ps t out -> run_of (trash_each ps o) t out.
+Proof. intros o ps t out. apply trash_each_runs. Qed.
+Print Assumptions single_runs_compose.
 
 (* p_nfail counts exactly the WARNING lines that start with "cannot trash " *)
 Theorem nfail_counts_reports : forall s t r s',
